@@ -15,15 +15,17 @@ from vpbt.oracles import regex_ref as R
 ID = "C18"
 LEVEL = "exploration"
 RULE = (
-    "Three parts. (1) Exhaustive box: every pattern syntax tree with <= 3 leaves over the leaves {a, b, .}, the binary "
-    "operators juxtaposition and '|' and one of {none, ?, *, +} on EVERY node (12 + 1152 + 221184 trees, each rendered with "
-    "explicit parentheses so that the library parses the same tree), plus every tree with <= 2 leaves followed by '$' "
-    "(1164), against EVERY symbol sequence over {a, b, x} (x = a symbol no pattern names): length <= 5 (quick) / <= 6 "
-    "(thorough) for the <= 2-leaf trees and their '$' variants, length <= 3 (quick) / <= 4 (thorough) for the 3-leaf trees "
-    "(length 5 there would cost about 7 min on 16 idle cores). Each maximal sequence is fed to a fresh Matcher; "
-    "after every prefix the check compares match_symbol's result, is_complete() and valid_next_symbols() with the "
-    "reference, so one 'evaluation' in this part is one (pattern, sequence) pair, every sequence of length 0..L counted once. "
-    "coverage.exhaustive refers to exactly this box. (2) Hypothesis: trees with up to 8 leaves over three names and '.', "
+    "Three parts. (1) Enumerated box: pattern syntax trees over the leaves {a, b, .}, the binary operators juxtaposition "
+    "and '|' and one of {none, ?, *, +} on EVERY node, each rendered with explicit parentheses so that the library parses "
+    "the same tree, against EVERY symbol sequence up to a length L over {a, b, x} (x = a symbol no pattern names). "
+    "Both tiers: all 12 + 1152 trees with <= 2 leaves and each of them followed by '$' (1164 more), L = 5 (quick) / 6 "
+    "(thorough). The 221184 trees with 3 leaves: thorough enumerates ALL of them with L = 3 and every 4th additionally "
+    "with L = 4; quick takes every 8th tree (systematic sample, 27648 trees) with L = 3 (labels box3_trees_length_*). "
+    "Each maximal sequence is fed to a fresh Matcher; after every prefix the check compares match_symbol's result, "
+    "is_complete() and valid_next_symbols() with the reference, so one 'evaluation' in this part is one (pattern, sequence) "
+    "pair, every sequence of length 0..L counted once. coverage.exhaustive = true means: every box named above for the "
+    "tier was enumerated completely (in quick it is set by the <= 2-leaf box only; the 3-leaf sample is not exhaustive). "
+"(2) Hypothesis: trees with up to 8 leaves over three names and '.', "
     "with '$' wherever nothing mandatory follows it, occasionally an empty alternative ('a |', pinned by the repository's "
     "tests), rendered with random whitespace / newlines / redundant parentheses and three naming schemes (one with names "
     "that are prefixes of each other), against sequences of length <= 8 that follow the reference's viable symbols with "
@@ -63,7 +65,7 @@ _MODS = (None, "opt", "star", "plus")
 
 
 def EXHAUSTIVE(tier):
-    return True
+    return True   # see RULE for which box; shards overrule this when a --budget deadline cuts the enumeration short
 
 
 # ---------------------------------------------------------------------------
@@ -451,12 +453,18 @@ def run_box(spec, ctx, Matcher):
                 col.sample({"part": "box", "pattern": R.render(p), "sequences": "all of length <= %d over a,b,x" % L,
                             "non_trivial_sequences": nt})
     else:
-        L = ctx.pick(3, 4)
         for i, p in box3_slice(k, n):
             if ctx.expired():
                 col.inconclusive = 1
                 complete = False
                 break
+            if ctx.thorough:
+                L = 4 if i % 4 == 0 else 3       # every tree with length <= 3, every 4th also with length 4
+            elif i % 8:
+                continue                          # quick: a systematic 1/8 sample of the 3-leaf trees
+            else:
+                L = 3
+            stats["box3_trees_length_%d" % L] += 1
             nt = box_pattern(Matcher, p, L, col, stats, False, "re", (i // n) % 8 == 0)
             if nt and sampled < 1 and k == 0 and i > 40000:
                 sampled += 1
@@ -464,7 +472,11 @@ def run_box(spec, ctx, Matcher):
                             "non_trivial_sequences": nt})
     for key, v in stats.items():
         col.count(key, v)
-    col.exhaustive = complete   # False only when a --budget deadline cut the enumeration short
+    # quick enumerates the <= 2-leaf box completely and samples the 3-leaf trees; thorough enumerates both
+    if not complete:
+        col.exhaustive = False
+    elif kind == "box2" or ctx.thorough:
+        col.exhaustive = True
 
 
 # ---------------------------------------------------------------------------
@@ -621,7 +633,7 @@ def run_shard(spec, ctx):
             seq = walk(judge, scheme, picks)
             evaluate_case(Matcher, text, tree, judge, seq, col, "generated")
 
-        run_given(generated_cases(), body, ctx, ctx.pick(1500, 17000))
+        run_given(generated_cases(), body, ctx, ctx.pick(1500, 12000))
     else:
         pats = real_patterns()
         names = parse_code_names()
@@ -645,7 +657,7 @@ def run_shard(spec, ctx):
         longest = max(range(len(usable)), key=lambda i: R.leaves(usable[i][2]))
         tickets = list(range(len(usable))) + [longest, longest]
         strat = st.tuples(st.sampled_from(tickets), st.lists(st.integers(0, 255), min_size=1, max_size=12))
-        run_given(strat, body, ctx, ctx.pick(1500, 12000))
+        run_given(strat, body, ctx, ctx.pick(1500, 8000))
 
 
 def replay(data, col):
